@@ -8,8 +8,9 @@ namespace Bip39V
 open Model Go Spec Unicode
 
 /-- C13 on the source: after any history of calls, a call answers as in a fresh process -/
-theorem src_c13_history_free (E : Env) (ops : List Op) (op : Op) (hop : op.isSwap = false) :
+theorem src_c13_history_free (E : Env) (ops : List Op) (op : Op) (hop : op.isSwap = false)
+    (hr : op.inRange) (hrs : ∀ o ∈ ops, o.inRange) :
     (Code.step E (Code.run E .init ops) op).2 = (Code.step E .init op).2 := by
-  rw [refine_run, refine_step, refine_step]; exact c13_history_free E ops op hop
+  rw [refine_run E _ ops hrs, refine_step E _ op hr, refine_step E _ op hr]; exact c13_history_free E ops op hop
 
 end Bip39V
